@@ -937,3 +937,28 @@ def r17_walker_position_kept_wide(ck, P, rid='C13-R17'):
                 ck.violation(R, fn, 'narrowed position used unmasked', '%s narrows the 48.16 gradient position to 32 bits (%s) and uses the result other than through a mask of the repeat period (%s at %s): for a parameter beyond +-32768 the value changes sign, the search through the stops takes the other end of the gradient, and a PAD or NONE gradient shows the wrong colour far away from its end points' % (fn, x.loc(), bad[0].op, bad[0].loc()), bad[0].loc())
     if n == 0:
         raise AnalysisBroken('%s: no narrowing of the walker position found (the repeat reductions are the positive examples)' % rid)
+
+
+def r18_reflection_mirrors_the_old_bounds(ck, P, rid='C13-R18'):
+    """T-DEP: in an odd period of REPEAT_REFLECT the stop segment [l, r] is mirrored to [1 - r, 1 - l]: both new bounds are reflections of
+    the *old* ones.  A bound reflected from the already reflected other bound (1 - (1 - r) = r) gives [1 - r, r]."""
+    R = ck.rule(rid, 'in the gradient walker no reflection 0x10000 - x takes an x that is itself a reflection 0x10000 - y: the mirrored segment of REPEAT_REFLECT is built from the segment\'s old bounds, both of them; with the assignments in the other order the right bound is computed from the new left bound, and a segment whose ends do not add up to 1 (three stops, or stops away from 0 and 1) is interpolated over the wrong interval in every odd period', floor=2)
+    u = P.units.get('pixman-gradient-walker.c')
+    if u is None:
+        raise AnalysisBroken('%s: pixman-gradient-walker.c not compiled' % rid)
+    n = 0
+    for fn, f in sorted(u.functions.items()):
+        def is_reflection(y):
+            return y is not None and y.op == 'sub' and y.a[0][0] == 'c' and int(y.a[0][1]) == 0x10000
+        for x in f.insts():
+            if not is_reflection(x):
+                continue
+            n += 1; ck.saw(f)
+            src = f.v(f.strip_casts(x.a[1])) if x.a[1][0] == 'v' else None
+            where = '%s: reflection at %s' % (fn, x.loc())
+            if is_reflection(src):
+                ck.violation(R, fn, 'reflection of a reflected bound', '%s reflects (0x10000 - x at %s) a value that is itself the reflection computed at %s: the bound comes out as the un-reflected other end, the mirrored segment is [1 - r, r] instead of [1 - r, 1 - l], and colours in odd periods of a reflected gradient are interpolated over the wrong interval' % (fn, x.loc(), src.loc()), x.loc())
+            else:
+                ck.ok(R, where, 'of an old bound')
+    if n == 0:
+        raise AnalysisBroken('%s: no reflection found in the gradient walker' % rid)
